@@ -6,9 +6,9 @@
        executed after it, the step ends with YieldException(true), and it is the only such end in
        the step (exec_task_law);
      - outside a task it is immediately followed by run_background_tasks_one_cycle (exec_main_law);
-   both for statements without a while loop whose iteration can end by `continue` (wc_free); for such
-   a loop the laws fail (witnesses in Refuted-style theorems at the end: the pinned
-   execute_while_statement jumps from `continue` straight to the next test of the condition). *)
+   both for EVERY statement: since fix a1ebdfd the ContinueException handler of
+   execute_while_statement falls through to the common end of the iteration, as the for loop's does
+   (before it the laws failed for a while loop whose iteration ends by `continue`). *)
 From Coq Require Import List Arith Bool Lia.
 From Cb Require Import C15.Body.
 Import ListNotations.
@@ -134,14 +134,12 @@ Section Laws.
       if eval c e then
         let '(its, r, e1) := bexec A task f body e in
         match r with
-        | RNormal =>
-            if task then (IIter id :: its ++ [IIterEnd id IFall], RYield true, e1)
+        | RNormal | RContinue =>
+            let k := match r with RContinue => IContinue | _ => IFall end in
+            if task then (IIter id :: its ++ [IIterEnd id k], RYield true, e1)
             else
               let '(its2, r2, e2) := while_iter A task f id c body e1 in
-              (IIter id :: its ++ [IIterEnd id IFall; IBg] ++ its2, r2, e2)
-        | RContinue =>
-            let '(its2, r2, e2) := while_iter A task f id c body e1 in
-            (IIter id :: its ++ [IIterEnd id IContinue] ++ its2, r2, e2)
+              (IIter id :: its ++ [IIterEnd id k; IBg] ++ its2, r2, e2)
         | RYield true => (IIter id :: its ++ [IIterEnd id IYieldInner], RYield true, e1)
         | RYield false => (IIter id :: its ++ [IIterEnd id IYieldExplicit], RYield true, e1)
         | RBreak => (IIter id :: its ++ [IIterEnd id IBreak], RNormal, e1)
@@ -235,7 +233,8 @@ Section Laws.
         * destruct task; [inversion H; subst; discriminate|].
           destruct (while_iter A false f id c body e1) as [[its2 r2] e2] eqn:Hr.
           inversion H; subst. eapply IHw; eauto.
-        * destruct (while_iter A task f id c body e1) as [[its2 r2] e2] eqn:Hr.
+        * destruct task; [inversion H; subst; discriminate|].
+          destruct (while_iter A false f id c body e1) as [[its2 r2] e2] eqn:Hr.
           inversion H; subst. eapply IHw; eauto.
         * destruct fl; inversion H; subst; discriminate.
       + (* block_from *)
@@ -271,16 +270,15 @@ Section TaskLaw.
     susp_ok A its = true /\ (has_boundary A its = true -> r = RYield true).
 
   Definition T_exec (f : nat) := forall s e its r e',
-    wc_free A s = true -> bexec A true f s e = (its, r, e') -> good its r.
+    bexec A true f s e = (its, r, e') -> good its r.
   Definition T_for (f : nat) := forall id v n body owned e its r e',
-    wc_free A body = true -> for_iter A true f id v n body owned e = (its, r, e') -> good its r.
+    for_iter A true f id v n body owned e = (its, r, e') -> good its r.
   Definition T_while (f : nat) := forall id c body e its r e',
-    can_continue A body = false -> wc_free A body = true ->
     while_iter A true f id c body e = (its, r, e') -> good its r.
   Definition T_block (f : nat) := forall id rest i e its r e',
-    forallb (wc_free A) rest = true -> block_from A true f id rest i e = (its, r, e') -> good its r.
+    block_from A true f id rest i e = (its, r, e') -> good its r.
   Definition T_call (f : nat) := forall rest e its r e',
-    forallb (wc_free A) rest = true -> call_from A true f rest e = (its, r, e') -> good its r.
+    call_from A true f rest e = (its, r, e') -> good its r.
 
   Lemma good_nil : forall r, good [] r.
   Proof. intros r. split; [reflexivity|]. cbn. discriminate. Qed.
@@ -329,22 +327,21 @@ Section TaskLaw.
         match goal with H : (_, _, _) = (_, _, _) |- _ => inversion H; subst end; apply good_nil.
     - (split; [|split; [|split; [|split]]]); red.
       + (* bexec *)
-        intros s e its r e' Hw H. rewrite exec_S in H. destruct s; cbn in Hw;
+        intros s e its r e' H. rewrite exec_S in H. destruct s;
           try (inversion H; subst; apply good_nil).
-        * apply andb_true_iff in Hw. destruct Hw as [Hw1 Hw2]. destruct (eval c e).
+        * destruct (eval c e).
           -- eapply IHe; eauto.
           -- destruct e0 as [s'|]; [eapply IHe; eauto|inversion H; subst; apply good_nil].
-        * eapply IHb; [|exact H]. apply forallb_skipn; exact Hw.
+        * eapply IHb; exact H.
         * destruct (alookup v (e_vars e)); eapply IHf; eauto.
-        * apply andb_true_iff in Hw. destruct Hw as [Hw1 Hw2]. apply negb_true_iff in Hw1.
-          eapply IHw; eauto.
+        * eapply IHw; eauto.
         * destruct (call_from A true f body env0) as [[its0 r0] e0] eqn:Hcf.
           inversion H; subst. eapply IHc; eauto.
       + (* for_iter *)
-        intros id v n body owned e its r e' Hw H. rewrite for_iter_S in H; cbv beta iota zeta in H.
+        intros id v n body owned e its r e' H. rewrite for_iter_S in H; cbv beta iota zeta in H.
         destruct (var v e <? n); [|inversion H; subst; apply good_nil].
         destruct (bexec A true f body e) as [[its0 r0] e1] eqn:Hb.
-        pose proof (IHe _ _ _ _ _ Hw Hb) as Hg.
+        pose proof (IHe _ _ _ _ _ Hb) as Hg.
         destruct r0 as [| | |fl| |]; try (inversion H; subst).
         * eapply good_iter_boundary; eauto; discriminate.
         * eapply good_iter_quiet; eauto; discriminate.
@@ -353,39 +350,37 @@ Section TaskLaw.
             eapply good_iter_quiet; eauto.
         * eapply good_iter_quiet; eauto; discriminate.
         * eapply good_iter_quiet; eauto; discriminate.
-      + (* while_iter *)
-        intros id c body e its r e' Hcc Hw H. rewrite while_iter_S in H; cbv beta iota zeta in H.
+      + (* while_iter: the same case analysis as the for loop since fix a1ebdfd *)
+        intros id c body e its r e' H. rewrite while_iter_S in H; cbv beta iota zeta in H.
         destruct (eval c e); [|inversion H; subst; apply good_nil].
         destruct (bexec A true f body e) as [[its0 r0] e1] eqn:Hb.
-        pose proof (IHe _ _ _ _ _ Hw Hb) as Hg.
-        pose proof (exec_no_continue A true _ _ _ _ _ _ Hb Hcc) as Hnc.
-        destruct r0 as [| | |fl| |]; try (inversion H; subst); try congruence.
+        pose proof (IHe _ _ _ _ _ Hb) as Hg.
+        destruct r0 as [| | |fl| |]; try (inversion H; subst).
         * eapply good_iter_boundary; eauto; discriminate.
         * eapply good_iter_quiet; eauto; discriminate.
+        * eapply good_iter_boundary; eauto; discriminate.
         * destruct fl; inversion H; subst; eapply good_iter_quiet; eauto.
         * eapply good_iter_quiet; eauto; discriminate.
         * eapply good_iter_quiet; eauto; discriminate.
       + (* block_from *)
-        intros id rest i e its r e' Hw H. rewrite block_from_S in H; cbv beta iota zeta in H.
+        intros id rest i e its r e' H. rewrite block_from_S in H; cbv beta iota zeta in H.
         destruct rest as [|s rest']; [inversion H; subst; apply good_nil|].
-        cbn in Hw. apply andb_true_iff in Hw. destruct Hw as [Hw1 Hw2].
         destruct (bexec A true f s (set_rpos id i e)) as [[its0 r0] e1] eqn:Hs.
-        pose proof (IHe _ _ _ _ _ Hw1 Hs) as Hg.
+        pose proof (IHe _ _ _ _ _ Hs) as Hg.
         destruct r0 as [| | |fl| |]; try (inversion H; subst; exact Hg).
         destruct (block_from A true f id rest' (S i) (set_rpos id (S i) e1)) as [[its2 r2] e2] eqn:Hr.
         inversion H; subst. eapply good_app_normal; eauto. discriminate.
       + (* call_from *)
-        intros rest e its r e' Hw H. rewrite call_from_S in H; cbv beta iota zeta in H.
+        intros rest e its r e' H. rewrite call_from_S in H; cbv beta iota zeta in H.
         destruct rest as [|s rest']; [inversion H; subst; apply good_nil|].
-        cbn in Hw. apply andb_true_iff in Hw. destruct Hw as [Hw1 Hw2].
         destruct (bexec A true f s e) as [[its0 r0] e1] eqn:Hs.
-        pose proof (IHe _ _ _ _ _ Hw1 Hs) as Hg.
+        pose proof (IHe _ _ _ _ _ Hs) as Hg.
         destruct r0 as [| | |fl| |]; try (inversion H; subst).
         * destruct (call_from A true f rest' e1) as [[its2 r2] e2] eqn:Hr.
           inversion H; subst.
           change (its0 ++ ICycle :: its2) with (its0 ++ [ICycle] ++ its2).
           eapply good_app_normal; eauto; [discriminate|].
-          pose proof (IHc _ _ _ _ _ Hw2 Hr) as [G1 G2]. split; assumption.
+          pose proof (IHc _ _ _ _ _ Hr) as [G1 G2]. split; assumption.
         * destruct Hg as [G1 G2]. split; [exact G1|]. intros Hb. specialize (G2 Hb). discriminate.
         * destruct Hg as [G1 G2]. split; [exact G1|]. intros Hb. specialize (G2 Hb). discriminate.
         * exact Hg.
@@ -408,14 +403,14 @@ Section TaskLaw.
   Qed.
 
   Lemma exec_task_law_l : forall fuel (s : bstmt A) e its r e',
-    wc_free A s = true -> bexec A true fuel s e = (its, r, e') ->
+    bexec A true fuel s e = (its, r, e') ->
     forall pre id k post, its = pre ++ IIterEnd id k :: post -> boundary k = true ->
       r = RYield true /\
       Forall (fun it => exists id' k', it = IIterEnd id' k' /\ boundary k' = false) post /\
       Forall (fun it => is_boundary A it = false) pre.
   Proof.
-    intros fuel s e its r e' Hw H pre id k post Hits Hk.
-    destruct (proj1 (task_all fuel) _ _ _ _ _ Hw H) as [G1 G2]. subst its.
+    intros fuel s e its r e' H pre id k post Hits Hk.
+    destruct (proj1 (task_all fuel) _ _ _ _ _ H) as [G1 G2]. subst its.
     assert (Hb : is_boundary A (IIterEnd id k) = true) by exact Hk.
     destruct (susp_ok_split _ _ _ G1 Hb) as [S1 S2].
     split; [|split].
@@ -439,16 +434,15 @@ Section MainLaw.
   Notation item := (item A).
 
   Definition M_exec (f : nat) := forall s e its r e',
-    wc_free A s = true -> bexec A false f s e = (its, r, e') -> bg_ok A its = true.
+    bexec A false f s e = (its, r, e') -> bg_ok A its = true.
   Definition M_for (f : nat) := forall id v n body owned e its r e',
-    wc_free A body = true -> for_iter A false f id v n body owned e = (its, r, e') -> bg_ok A its = true.
+    for_iter A false f id v n body owned e = (its, r, e') -> bg_ok A its = true.
   Definition M_while (f : nat) := forall id c body e its r e',
-    can_continue A body = false -> wc_free A body = true ->
     while_iter A false f id c body e = (its, r, e') -> bg_ok A its = true.
   Definition M_block (f : nat) := forall id rest i e its r e',
-    forallb (wc_free A) rest = true -> block_from A false f id rest i e = (its, r, e') -> bg_ok A its = true.
+    block_from A false f id rest i e = (its, r, e') -> bg_ok A its = true.
   Definition M_call (f : nat) := forall rest e its r e',
-    forallb (wc_free A) rest = true -> call_from A false f rest e = (its, r, e') -> bg_ok A its = true.
+    call_from A false f rest e = (its, r, e') -> bg_ok A its = true.
 
   Lemma bg_iter_quiet : forall id its k,
     bg_ok A its = true -> boundary k = false -> bg_ok A (IIter id :: its ++ [IIterEnd id k]) = true.
@@ -470,50 +464,49 @@ Section MainLaw.
     - (split; [|split; [|split; [|split]]]); red; intros; cbn in *;
         match goal with H : (_, _, _) = (_, _, _) |- _ => inversion H; subst end; reflexivity.
     - (split; [|split; [|split; [|split]]]); red.
-      + intros s e its r e' Hw H. rewrite exec_S in H. destruct s; cbn in Hw;
+      + intros s e its r e' H. rewrite exec_S in H. destruct s;
           try (inversion H; subst; reflexivity).
-        * apply andb_true_iff in Hw. destruct Hw as [Hw1 Hw2]. destruct (eval c e).
+        * destruct (eval c e).
           -- eapply IHe; eauto.
           -- destruct e0 as [s'|]; [eapply IHe; eauto|inversion H; subst; reflexivity].
-        * eapply IHb; [|exact H]. apply forallb_skipn; exact Hw.
+        * eapply IHb; exact H.
         * destruct (alookup v (e_vars e)); eapply IHf; eauto.
-        * apply andb_true_iff in Hw. destruct Hw as [Hw1 Hw2]. apply negb_true_iff in Hw1.
-          eapply IHw; eauto.
+        * eapply IHw; eauto.
         * destruct (call_from A false f body env0) as [[its0 r0] e0] eqn:Hcf.
           inversion H; subst. eapply IHc; eauto.
-      + intros id v n body owned e its r e' Hw H. rewrite for_iter_S in H; cbv beta iota zeta in H.
+      + intros id v n body owned e its r e' H. rewrite for_iter_S in H; cbv beta iota zeta in H.
         destruct (var v e <? n); [|inversion H; subst; reflexivity].
         destruct (bexec A false f body e) as [[its0 r0] e1] eqn:Hb.
-        pose proof (IHe _ _ _ _ _ Hw Hb) as Hg.
+        pose proof (IHe _ _ _ _ _ Hb) as Hg.
         destruct r0 as [| | |fl| |]; try (inversion H; subst; apply bg_iter_quiet; [exact Hg|reflexivity]).
         * destruct (for_iter A false f id v n body owned _) as [[its2 r2] e3] eqn:Hr.
           inversion H; subst. apply bg_iter_boundary; [exact Hg|]. eapply IHf; eauto.
         * destruct (for_iter A false f id v n body owned _) as [[its2 r2] e3] eqn:Hr.
           inversion H; subst. apply bg_iter_boundary; [exact Hg|]. eapply IHf; eauto.
         * destruct fl; inversion H; subst; apply bg_iter_quiet; (exact Hg || reflexivity).
-      + intros id c body e its r e' Hcc Hw H. rewrite while_iter_S in H; cbv beta iota zeta in H.
+      + (* while_iter: the same case analysis as the for loop since fix a1ebdfd *)
+        intros id c body e its r e' H. rewrite while_iter_S in H; cbv beta iota zeta in H.
         destruct (eval c e); [|inversion H; subst; reflexivity].
         destruct (bexec A false f body e) as [[its0 r0] e1] eqn:Hb.
-        pose proof (IHe _ _ _ _ _ Hw Hb) as Hg.
-        pose proof (exec_no_continue A false _ _ _ _ _ _ Hb Hcc) as Hnc.
-        destruct r0 as [| | |fl| |]; try congruence;
+        pose proof (IHe _ _ _ _ _ Hb) as Hg.
+        destruct r0 as [| | |fl| |];
           try (inversion H; subst; apply bg_iter_quiet; [exact Hg|reflexivity]).
         * destruct (while_iter A false f id c body e1) as [[its2 r2] e2] eqn:Hr.
           inversion H; subst. apply bg_iter_boundary; [exact Hg|]. eapply IHw; eauto.
+        * destruct (while_iter A false f id c body e1) as [[its2 r2] e2] eqn:Hr.
+          inversion H; subst. apply bg_iter_boundary; [exact Hg|]. eapply IHw; eauto.
         * destruct fl; inversion H; subst; apply bg_iter_quiet; (exact Hg || reflexivity).
-      + intros id rest i e its r e' Hw H. rewrite block_from_S in H; cbv beta iota zeta in H.
+      + intros id rest i e its r e' H. rewrite block_from_S in H; cbv beta iota zeta in H.
         destruct rest as [|s rest']; [inversion H; subst; reflexivity|].
-        cbn in Hw. apply andb_true_iff in Hw. destruct Hw as [Hw1 Hw2].
         destruct (bexec A false f s (set_rpos id i e)) as [[its0 r0] e1] eqn:Hs.
-        pose proof (IHe _ _ _ _ _ Hw1 Hs) as Hg.
+        pose proof (IHe _ _ _ _ _ Hs) as Hg.
         destruct r0 as [| | |fl| |]; try (inversion H; subst; exact Hg).
         destruct (block_from A false f id rest' (S i) (set_rpos id (S i) e1)) as [[its2 r2] e2] eqn:Hr.
         inversion H; subst. rewrite (bg_ok_app A _ _ Hg). eapply IHb; eauto.
-      + intros rest e its r e' Hw H. rewrite call_from_S in H; cbv beta iota zeta in H.
+      + intros rest e its r e' H. rewrite call_from_S in H; cbv beta iota zeta in H.
         destruct rest as [|s rest']; [inversion H; subst; reflexivity|].
-        cbn in Hw. apply andb_true_iff in Hw. destruct Hw as [Hw1 Hw2].
         destruct (bexec A false f s e) as [[its0 r0] e1] eqn:Hs.
-        pose proof (IHe _ _ _ _ _ Hw1 Hs) as Hg.
+        pose proof (IHe _ _ _ _ _ Hs) as Hg.
         destruct r0 as [| | |fl| |]; try (inversion H; subst; exact Hg).
         destruct (call_from A false f rest' e1) as [[its2 r2] e2] eqn:Hr.
         inversion H; subst. rewrite (bg_ok_app A _ _ Hg). cbn. eapply IHc; eauto.
@@ -529,40 +522,29 @@ Section MainLaw.
   Qed.
 
   Lemma exec_main_law_l : forall fuel (s : bstmt A) e its r e',
-    wc_free A s = true -> bexec A false fuel s e = (its, r, e') ->
+    bexec A false fuel s e = (its, r, e') ->
     forall pre id k post, its = pre ++ IIterEnd id k :: post -> boundary k = true ->
       exists post', post = IBg :: post'.
   Proof.
-    intros fuel s e its r e' Hw H pre id k post Hits Hk. subst its.
+    intros fuel s e its r e' H pre id k post Hits Hk. subst its.
     eapply bg_ok_split; [eapply (proj1 (main_all fuel)); eauto|exact Hk].
   Qed.
 End MainLaw.
 
 (* ============================================================================================== *)
-(* the while loop's continue path: both laws fail (pinned execute_while_statement)                  *)
+(* the while loop's continue path (the witness of the former _refuted theorems, finding
+   C15-while-continue-no-suspension, repaired by a1ebdfd): one iteration per step in a task, a
+   background cycle after every iteration in main                                                  *)
 (*   q = 0; while (q < 2) { q = q + 1; println(7); continue; }                                      *)
 Definition wc_witness : bstmt nat :=
   BWhile 1 (CLt 0 2) (BBlock 2 [BInc 0; BSimple 7; BContinue]).
 
-Lemma while_continue_task_refuted_l :
-  exists fuel (s : bstmt nat) e its r e' pre id post x,
-    bexec nat true fuel s e = (its, r, e') /\
-    its = pre ++ IIterEnd id IContinue :: post /\ In (ISimple x) post.
-Proof.
-  exists 20, wc_witness, (set_var 0 0 env0).
-  eexists. eexists. eexists.
-  exists [IIter 1; ISimple 7], 1. eexists. exists 7.
-  split; [vm_compute; reflexivity|]. split; [reflexivity|]. cbn. tauto.
-Qed.
+Lemma while_continue_task_step :
+  bexec nat true 20 wc_witness (set_var 0 0 env0) =
+    ([IIter 1; ISimple 7; IIterEnd 1 IContinue], RYield true, set_var 0 1 (set_var 0 0 env0)).
+Proof. vm_compute. reflexivity. Qed.
 
-Lemma while_continue_main_refuted_l :
-  exists fuel (s : bstmt nat) e its r e' pre id post,
-    bexec nat false fuel s e = (its, r, e') /\
-    its = pre ++ IIterEnd id IContinue :: post /\ ~ (exists post', post = IBg :: post').
-Proof.
-  exists 20, wc_witness, (set_var 0 0 env0).
-  eexists. eexists. eexists.
-  exists [IIter 1; ISimple 7], 1. eexists.
-  split; [vm_compute; reflexivity|]. split; [reflexivity|].
-  intros [post' H]. discriminate.
-Qed.
+Lemma while_continue_main_step :
+  fst (fst (bexec nat false 20 wc_witness (set_var 0 0 env0))) =
+    [IIter 1; ISimple 7; IIterEnd 1 IContinue; IBg; IIter 1; ISimple 7; IIterEnd 1 IContinue; IBg].
+Proof. vm_compute. reflexivity. Qed.
